@@ -6,6 +6,7 @@ import (
 	"context"
 	"encoding/hex"
 	"fmt"
+	"io"
 	"math/rand"
 	"net/http"
 	"net/http/httptest"
@@ -597,6 +598,32 @@ func extractCrash(c *harness.Ctx, i int) {
 		}
 		dsu.WriteFile(dest, old)
 	}
+	readDest := func() []byte {
+		b, _ := os.ReadFile(dest)
+		return b
+	}
+	if inPlace && i%5 == 4 {
+		// the destination of an in-place extract is a block device (what -k is mostly used for): a loop device over a
+		// file of garbage a little larger than the blob
+		img := filepath.Join(dir, "device.img")
+		dsu.WriteFile(img, dsu.MakeBlob(rng, "random", (len(blob)+8191)/4096*4096, sz))
+		if out, lerr := exec.Command("losetup", "-f", "--show", img).Output(); lerr == nil {
+			dev := strings.TrimSpace(string(out))
+			defer exec.Command("losetup", "-d", dev).Run()
+			dest, destKind, destName = dev, "blockdev", "loop"
+			readDest = func() []byte {
+				f, oerr := os.Open(dev)
+				if oerr != nil {
+					return nil
+				}
+				defer f.Close()
+				b := make([]byte, len(blob))
+				n, _ := io.ReadFull(f, b)
+				return b[:n]
+			}
+			c.Count("in_place_extracts_onto_a_block_device", 1)
+		}
+	}
 	if destKind == "symlink" {
 		// the destination is a symlink to a regular file holding the previous version
 		inPlace = false
@@ -626,7 +653,7 @@ func extractCrash(c *harness.Ctx, i int) {
 	if !childDied {
 		// finished before the kill landed (or failed otherwise): nothing to decide here except plain success
 		if err == nil {
-			got, _ := os.ReadFile(dest)
+			got := readDest()
 			if !bytes.Equal(got, blob) {
 				c.Violation("extract-success-wrong", "extract exited 0 but the destination differs from the blob")
 			}
@@ -657,7 +684,7 @@ func extractCrash(c *harness.Ctx, i int) {
 		c.NonTrivial("extract|tmp|n%d|k%d|%s|name%d", n, k, destKind, len(destName)/100)
 	} else {
 		// what is in place now?
-		part, _ := os.ReadFile(dest)
+		part := readDest()
 		notInPlace := map[string]int{}
 		inPlaceCount := 0
 		for _, ch := range idx.Chunks {
@@ -690,7 +717,7 @@ func extractCrash(c *harness.Ctx, i int) {
 			c.Violation("rerun-failed", "in-place extract was killed at chunk request %d; the re-run failed: %v\n%s", k, rerr, out)
 			return
 		}
-		got, _ := os.ReadFile(dest)
+		got := readDest()
 		if !bytes.Equal(got, blob) {
 			c.Violation("rerun-wrong-output", "in-place extract was killed at chunk request %d; the re-run exited 0 but the output differs from the blob", k)
 			return
